@@ -1155,3 +1155,11 @@ from engine import Rule
 RS.rules.append(Rule('C10.R11', 'K-GUARD', 'errexit sees the failure of a command substitution in ANY assignment of a command without a command '
                      'name: the status handed to apply_errexit is folded over the assignments (C02.R11)', _c02_assignment_status))
 RS.explanation += ' The status of an assignment-only command, which errexit inspects, is folded over all its assignments (R11 = C02.R11).'
+
+
+from rules.C02 import r3 as _c02_divert_max
+from engine import Rule
+RS.rules.append(Rule('C10.R12', 'K-TYPE+K-TABLE', 'an abort requested by a trap action is never dropped: the command combines its own divert and the divert of the traps '
+                     'run after it by the Divert maximum (Continue < Break < Return < Interrupt < Exit < Abort), so a shell error / errexit / exit '
+                     'raised in a trap action that runs right after `return`, `break` or `continue` still ends the script (C02.R3)', _c02_divert_max))
+RS.explanation += ' A command combines its own divert and that of the traps run after it by the maximum (R12 = C02.R3).'
